@@ -137,4 +137,104 @@ theorem C11_source_compare_matches (hX : OrchExt X cv selV cbV strip incl excl p
   obtain ⟨st', rfl, e0, e2, e3, e4, eo⟩ := key
   simp [foldl_compareStep, e0, e2, e3, e4, eo, List.lookup]
 
+/-! ### `FieldComparisonSuite` -/
+
+/-- `FieldComparisonSuite.__init__(domain_eq_check, comparisons)` stores the domain check and partitions the comparisons,
+    in order, into `_passed` (status `passed`), `_failed` (falsy: `failed`, `error`) and `_skipped` (the rest) — the
+    model's `mkSuite` / `bucketOf`, for EVERY list of comparisons.  (The translated constructor returns the dict of the
+    attributes it stores.)  No externals. -/
+theorem C11_source_suite_init (X : Ext) (d : Bool) (cs : List Cmp) :
+    Gen.c11oSuiteInitSrc.run X [predResultVal d, .list (cs.map cmpObj)] = .ok (suiteDict (mkSuite d cs)) := by
+  simp only [Gen.c11oSuiteInitSrc]
+  pylite_eval
+  generalize hf : forLoop _ _ _ = r
+  have key := forLoop_fold_eq cmpObj bucketStep
+    (fun acc st => st.env.lookup "v2" = some (predResultVal d) ∧ st.env.lookup "v3" = some (.list (acc.1.map cmpObj)) ∧
+      st.env.lookup "v4" = some (.list (acc.2.1.map cmpObj)) ∧ st.env.lookup "v5" = some (.list (acc.2.2.map cmpObj)))
+    hf ([], [], []) (by simp [List.lookup]) (by
+      rintro ⟨n, s⟩ ⟨P, F, S⟩ st ⟨e2, e3, e4, e5⟩
+      cases s <;>
+        simp [exec, execBlock, eval, evalList, withVal, withBool, St.set, Res.bind, Res.map, getAttr, cmpop, Val.eqv,
+          Val.truthy, binop, List.lookup, cmpObj, fstVal, fstName, e2, e3, e4, e5, bucketStep, bucketOf, Cmp.truthy,
+          FStatus.truthy, Gen.suitePassedBucket, Gen.FieldComparisonStatus.falsy])
+  obtain ⟨st', rfl, e2, e3, e4, e5⟩ := key
+  simp [foldl_bucketStep, e2, e3, e4, e5, List.lookup, suiteDict, mkSuite, dictSet, Val.eqv, Res.map, Res.bind]
+
+/-- … without comparisons (`comparisons=None`, the early return of a failed domain check): three empty lists. -/
+theorem C11_source_suite_init_none (X : Ext) (d : Bool) :
+    Gen.c11oSuiteInitSrc.run X [predResultVal d, .none] = .ok (suiteDict (mkSuite d [])) := by
+  simp only [Gen.c11oSuiteInitSrc]
+  pylite_eval [suiteDict, mkSuite, dictSet]
+
+/-- the object with the attributes of that dict -/
+theorem C11_suite_obj_of_dict (s : Suite) : objOfDict (suiteDict s) = .ok (suiteObj s) := by
+  simp [objOfDict, objOfDict.go, suiteDict, suiteObj, Res.map, Res.bind]
+
+/-! ### `FieldDataComparator.__call__` -/
+
+/-- the list handed to the suite constructor is the model's `comparisons` -/
+theorem C11_comparisons_val (sel : Nat → Bool) (pred : Fld → Fld → Outcome) (src ref : List Fld) :
+    (compareMatches pred (filterMatches sel (findMatches nameEq src ref).pairs).1).map cmpObj
+      ++ (((findMatches nameEq src ref).orphansRef.map fun f => cmpObj ⟨f.name, .missing_source⟩)
+      ++ (((findMatches nameEq src ref).orphansSrc.map fun f => cmpObj ⟨f.name, .missing_reference⟩)
+      ++ ((filterMatches sel (findMatches nameEq src ref).pairs).2.map fun f => cmpObj ⟨f.name, .filtered⟩)))
+    = (comparisons sel pred src ref).map cmpObj := by
+  simp [comparisons, List.map_append, List.map_map, Function.comp_def]
+
+/-- **`FieldDataComparator.__call__(predicate_selector, fieldcomp_callback)` is the model's `comparatorCall`**, for ALL
+    field lists, filters, selector / predicate outcomes (pass, fail, raise) and domain verdicts:
+    * the returned object is the `FieldComparisonSuite` whose three lists are those of `(comparatorCall …).suite`
+      (entries = (name, status), in order) and whose domain check is the result of `source.domain.equals(reference.domain)`;
+      when that check fails NOTHING else is done (no matching, no callback) and the suite is empty;
+    * the effect trace is exactly the callback invocations on `(comparatorCall …).callbacks`, in order (one per compared
+      pair, before the next pair is evaluated; none for missing / filtered fields);
+    * the order of the comparisons list is compared ++ missing_source ++ missing_reference ++ filtered.
+    Assumptions (externals): `OrchExt` (see there); `hdom`: the domain check returns a `PredicateResult` with truth value
+    `domainEq`; `hfind`: `find_matches_by_name(source, reference)` is the model's `findMatches nameEq` on the field lists
+    (`find_matches` itself is `C11_source_find_matches`); `hsuite`: constructing a `FieldComparisonSuite` runs the
+    TRANSLATED `__init__` and yields the object with the attributes it stored; `hselA`/`hcbA`: the two optional
+    arguments are the given callables or `None` (then the defaults `_default_predicate_selector` = `closure#0`,
+    `DefaultFieldComparisonCallback()` are used).  Not covered: the order of SELECTOR invocations relative to the
+    callbacks (externals are pure in PyLite: only statement-level calls are traced); exceptions escaping from the
+    selector, the callback, `str(predicate)` or the filters (assumed total, as in the model). -/
+theorem C11_source_comparator_call {dS dR : Val} {src ref : List Fld} {domainEq : Bool}
+    (hX : OrchExt X (comparatorVal dS dR src ref) selV cbV strip incl excl pred excOf cbRes)
+    (hdom : X ".equals" [dS, dR] = .ok (predResultVal domainEq))
+    (hfind : X "find_matches_by_name" [fdVal dS src, fdVal dR ref] =
+      .ok (queryVal (findMatches nameEq src ref).pairs (findMatches nameEq src ref).orphansSrc
+            (findMatches nameEq src ref).orphansRef))
+    (hsuite : ∀ c d, X "FieldComparisonSuite(comparisons=,domain_eq_check=)" [c, d] =
+      (Gen.c11oSuiteInitSrc.run X [d, c]).bind objOfDict)
+    (selArg cbArg : Val) (hselA : OrDefault X selArg "closure#0" selV)
+    (hcbA : OrDefault X cbArg "DefaultFieldComparisonCallback" cbV) :
+    Gen.c11oComparatorCallSrc.runTr X [comparatorVal dS dR src ref, selArg, cbArg] =
+      .ok (suiteObj (comparatorCall (selectedName strip incl excl) domainEq pred src ref).suite,
+           (comparatorCall (selectedName strip incl excl) domainEq pred src ref).callbacks.map cbRes) := by
+  obtain ⟨ts, hts, hsv⟩ := hselA.elim
+  obtain ⟨tc, htc, hcv⟩ := hcbA.elim
+  have hfm := fun x st => callRet_of_runTr (C11_source_filter_matches hX (findMatches nameEq src ref).pairs
+    (findMatches nameEq src ref).orphansSrc (findMatches nameEq src ref).orphansRef) x st
+  have hcm := fun ps x st => callRet_of_runTr (C11_source_compare_matches hX ps
+    (findMatches nameEq src ref).orphansSrc (findMatches nameEq src ref).orphansRef) x st
+  have hms := fun ps x st => callRet_of_runTr (C11_source_missing_source hX (comparatorVal dS dR src ref) ps
+    (findMatches nameEq src ref).orphansSrc (findMatches nameEq src ref).orphansRef) x st
+  have hmr := fun ps x st => callRet_of_runTr (C11_source_missing_reference hX (comparatorVal dS dR src ref) ps
+    (findMatches nameEq src ref).orphansSrc (findMatches nameEq src ref).orphansRef) x st
+  have hfl := fun fs x st => callRet_of_runTr (C11_source_filtered hX (comparatorVal dS dR src ref) fs) x st
+  have hs0 : ∀ d, X "FieldComparisonSuite(comparisons=,domain_eq_check=)" [.none, predResultVal d] =
+      .ok (suiteObj (mkSuite d [])) := by
+    intro d; rw [hsuite, C11_source_suite_init_none]; simp [Res.bind, C11_suite_obj_of_dict]
+  have hs1 : ∀ d cs, X "FieldComparisonSuite(comparisons=,domain_eq_check=)" [.list (cs.map cmpObj), predResultVal d] =
+      .ok (suiteObj (mkSuite d cs)) := by
+    intro d cs; rw [hsuite, C11_source_suite_init]; simp [Res.bind, C11_suite_obj_of_dict]
+  simp only [predResultVal] at hs0 hs1
+  simp only [Gen.c11oComparatorCallSrc]
+  cases domainEq
+  · orch_eval [hts, hsv, htc, hcv, comparatorVal, fdVal, hdom, predResultVal, hs0]
+    simp [comparatorCall]
+  · simp only [comparatorVal, fdVal] at hfind hfm hcm hms hmr hfl
+    orch_eval [hts, hsv, htc, hcv, comparatorVal, fdVal, hdom, predResultVal, hfind, hfm, hcm, hms, hmr, hfl]
+    rw [C11_comparisons_val, hs1]
+    simp [comparatorCall]
+
 end Fc
